@@ -342,7 +342,8 @@ Theorem holds_run_sound : forall c o, in_domain c = true -> r_obs c = Ok o -> ho
        /\ pheno_ok false c o r = true.
 Proof.
   intros c o Hd Ho H. unfold holds_run in H. rewrite Hd, Ho in H. cbn [negb] in H.
-  assert (H' : holds_obs c o = true) by (destruct (r_refuse c) as [[k b]|]; exact H). clear H.
+  assert (H' : holds_obs c o = true)
+    by (destruct (r_refuse c) as [[k b]|]; apply andb_true_iff in H; destruct H as [H _]; exact H). clear H.
   unfold holds_obs in H'.
   apply andb_true_iff in H'. destruct H' as [H' Hc]. apply andb_true_iff in H'. destruct H' as [H' Hr].
   apply andb_true_iff in H'. destruct H' as [Hz Hg].
@@ -353,4 +354,19 @@ Proof.
   unfold noise_ok in Hn. apply andb_true_iff in Hn. destruct Hn as [Hn N3]. apply andb_true_iff in Hn. destruct Hn as [_ N2].
   split; [exact L0|]. split; [exact Ls|]. split; [apply Qle_bool_iff; exact N2|].
   split; [unfold qclose in N3; apply Qle_bool_iff in N3; exact N3|exact Hp].
+Qed.
+
+(* ... and as many replicates (draws, columns: columns_ok) as replications were asked for *)
+Theorem holds_reps_sound : forall c o R, in_domain c = true -> r_obs c = Ok o -> holds_run c = true ->
+  r_reps c = Some R ->
+  Z.of_nat (length (o_reps o)) = R /\ length (o_names o) = length (o_reps o) /\ length (o_header o) = length (o_reps o).
+Proof.
+  intros c o R Hd Ho H HR. destruct (holds_run_sound c o Hd Ho H) as [_ [_ [Hc _]]].
+  unfold holds_run in H. rewrite Hd, Ho in H. cbn [negb] in H.
+  assert (H' : reps_ok c o = true)
+    by (destruct (r_refuse c) as [[k b]|]; apply andb_true_iff in H; destruct H as [_ H]; exact H). clear H.
+  unfold reps_ok in H'. rewrite HR in H'. apply Z.eqb_eq in H'. split; [exact H'|].
+  unfold columns_ok in Hc. cbn [negb orb] in Hc. rewrite andb_true_r in Hc.
+  repeat (apply andb_true_iff in Hc; destruct Hc as [Hc ?]).
+  split; apply Nat.eqb_eq; assumption.
 Qed.
